@@ -369,14 +369,315 @@ func C09() *check.Property {
 		Title:    "Context flows from Subscribe through every callback and is never nil",
 		Patterns: cat(CorePatterns, PluginPkgs, []string{PromPkg}, RatePkgs),
 		Scope:    []string{ro},
-		Rules:    []check.Rule{ruleCtxProvenance(), ruleNoFreshContext()},
+		Rules:    []check.Rule{ruleCtxProvenance(), ruleNoFreshContext(), ruleCtxPairing()},
 		Explanation: "Static def-use classification of every context operand. Sinks: the context argument of each upstream SubscribeWithContext and of each Next/Error/Complete notification in every subscribe closure " +
 			"(through inlined helpers and local closures), plus the same calls in the subjects, the subscriber and the connectable observable. Each operand is traced through assignments, tuple fields (lo.T2), slices/channels of tuples, " +
 			"atomic.Value, struct fields, closure and helper parameters to its origins; allowed origins are the subscriber context, the slot context, user-callback results and context.With* of those; Background/TODO/nil and " +
 			"unguarded zero values are violations, unknown forms are undecided (fail closed). A who-may-call rule additionally confines context.Background()/TODO() to the definitional entry points, hooks and guarded seeds.",
 		NotDecided:  "what user callbacks return; whether a context-typed value stored by an allowed origin is the *right* one among several allowed ones (e.g. last vs. first item's context).",
 		Assumptions: []string{"the upstream source itself honours the property (induction over the pipeline)", "zero-value exemptions listed in the checker (4 symbols) were argued by hand"},
-		Floors:      map[string]int{"ctx_sinks": 600, "ctx_sinks_core": 40, "fresh_context_sites": 30},
-		Controls:    map[string]string{"zz_verif_controls_c09.go": roControl(controlsC09)},
+		Floors:      map[string]int{"ctx_sinks": 600, "ctx_sinks_core": 40, "fresh_context_sites": 30, "stored_payload_emissions": 12},
+		Controls:    map[string]string{"zz_verif_controls_c09.go": roControl(controlsC09 + controlsC09b)},
 	}
+}
+
+// CTX-PAIRING: a value that was stored keeps the context it was stored with.
+func ruleCtxPairing() check.Rule {
+	return check.Rule{
+		Name:        "CTX-PAIRING",
+		Doc:         "when a notification's payload is taken out of a stored (context, value) tuple (x.B) the context operand of the same call is that tuple's context (x.A); when the payload is an element read from a queue kept by the operator or subject (index, range, channel receive) the context operand comes from the same element — a payload that was queued without its context, or re-paired with another context (the subscriber's, the timer's), loses the per-item context values",
+		NeedControl: true,
+		Run: func(c *check.Ctx) {
+			m := c.M
+			scs := scLits(m)
+			for _, p := range m.Pkgs {
+				armed := c.ArmedPkg(p.PkgPath)
+				info := p.TypesInfo
+				cnt := map[string]int{}
+				for _, f := range p.Syntax {
+					ast.Inspect(f, func(n ast.Node) bool {
+						call, ok := n.(*ast.CallExpr)
+						if !ok || len(call.Args) < 2 {
+							return true
+						}
+						// calls with a context operand followed by payload operands
+						ctxIdx := -1
+						for i, a := range call.Args {
+							if t := info.TypeOf(a); t != nil && model.IsContext(t) {
+								ctxIdx = i
+								break
+							}
+						}
+						if ctxIdx < 0 {
+							return true
+						}
+						callee := model.Callee(info, call)
+						isEmit := false
+						if callee != nil {
+							if name, ok := m.Obj.ObserverMethods[callee]; ok && notifKind(name) >= 0 {
+								isEmit = true
+							}
+							if callee.Pkg() != nil && callee.Pkg().Path() == ro && len(callee.Name()) > 19 && callee.Name()[:19] == "processNotification" {
+								isEmit = true
+							}
+						}
+						if !isEmit {
+							return true
+						}
+						chain := m.EnclosingFuncs(p, call)
+						fd := topDecl(chain)
+						if fd == nil {
+							return true
+						}
+						for i, a := range call.Args {
+							if i == ctxIdx {
+								continue
+							}
+							root, kind := payloadRoot(m, p, a, chain, scs)
+							if kind == "" {
+								continue
+							}
+							base := model.ShortPkg(p.PkgPath) + "." + model.DeclName(fd)
+							cnt[base]++
+							key := fmt.Sprintf("%s/paired-emission#%d", base, cnt[base])
+							c.Inc("stored_payload_emissions", 1)
+							ctxArg := ast.Unparen(call.Args[ctxIdx])
+							ok := false
+							if sel, isSel := ctxArg.(*ast.SelectorExpr); isSel && sel.Sel.Name == "A" && sameExpr(info, sel.X, root) {
+								ok = true
+							}
+							// the context variable itself was assigned from root.A
+							if id, isID := ctxArg.(*ast.Ident); isID && !ok {
+								for _, d := range m.Defs[objOf(info, id)] {
+									if sel, isSel := ast.Unparen(d.Expr).(*ast.SelectorExpr); isSel && sel.Sel.Name == "A" && sameExpr(info, sel.X, root) {
+										ok = true
+									}
+								}
+							}
+							if !ok && kind == "tuple field" && inUnsetBranch(m, p, call, root) {
+								if armed {
+									c.OK(key, call.Pos(), "payload %s is read on the branch where the companion flag says nothing was stored (zero value, no stored context exists)", types.ExprString(a))
+								}
+								break
+							}
+							if ok {
+								if armed {
+									c.OK(key, call.Pos(), "payload %s is delivered with the context stored beside it", types.ExprString(a))
+								}
+							} else {
+								c.Report(armed, key, call.Pos(), "payload %s (%s) is delivered with context %s instead of the context stored with it: per-item context values are lost or attached to the wrong item", types.ExprString(a), kind, types.ExprString(ctxArg))
+							}
+							break
+						}
+						return true
+					})
+				}
+			}
+		},
+	}
+}
+
+// payloadRoot recognises a stored payload: `x.B` of a (context, value) tuple -> (x, "tuple
+// field"); or a variable/expression that is an element read (index, range, receive) from a
+// container kept in operator/subject state -> (element, "queue element").
+func payloadRoot(m *model.Model, p *packages.Package, e ast.Expr, chain []ast.Node, scs map[*ast.FuncLit]*model.SC) (ast.Expr, string) {
+	info := p.TypesInfo
+	e = ast.Unparen(e)
+	if sel, ok := e.(*ast.SelectorExpr); ok && sel.Sel.Name == "B" {
+		if isCtxTuple(info.TypeOf(sel.X)) {
+			return sel.X, "tuple field"
+		}
+	}
+	id, ok := e.(*ast.Ident)
+	if !ok {
+		return nil, ""
+	}
+	v, ok := objOf(info, id).(*types.Var)
+	if !ok {
+		return nil, ""
+	}
+	defs := m.Defs[v]
+	if len(defs) != 1 {
+		return nil, ""
+	}
+	var container ast.Expr
+	switch n := defs[0].Node.(type) {
+	case *ast.RangeStmt:
+		if vid, ok := n.Value.(*ast.Ident); ok && objOf(info, vid) == v {
+			container = n.X
+		}
+	case *ast.AssignStmt:
+		if defs[0].Expr != nil {
+			switch x := ast.Unparen(defs[0].Expr).(type) {
+			case *ast.IndexExpr:
+				container = x.X
+			case *ast.UnaryExpr:
+				if x.Op.String() == "<-" {
+					container = x.X
+				}
+			}
+		}
+	}
+	if container == nil {
+		return nil, ""
+	}
+	// the container must be operator/subject state: a struct field, or a variable declared in a
+	// subscribe closure's own body (not a parameter, not a slot-local)
+	switch cx := ast.Unparen(container).(type) {
+	case *ast.SelectorExpr:
+		if s, ok := info.Selections[cx]; !ok || s.Kind() != types.FieldVal {
+			return nil, ""
+		}
+	case *ast.Ident:
+		cv, ok := objOf(info, cx).(*types.Var)
+		if !ok {
+			return nil, ""
+		}
+		stateful := false
+		for _, fn := range chain {
+			if l, ok := fn.(*ast.FuncLit); ok && scs[l] != nil {
+				for dv := range directLocals(info, l) {
+					if dv == cv {
+						stateful = true
+					}
+				}
+			}
+		}
+		// a queue is built by the operator (make / literal / append), not a range variable over an argument
+		built := false
+		for _, d := range m.Defs[cv] {
+			switch x := ast.Unparen(d.Expr).(type) {
+			case *ast.CompositeLit:
+				built = true
+			case *ast.CallExpr:
+				if id, ok := ast.Unparen(x.Fun).(*ast.Ident); ok && (id.Name == "make" || id.Name == "append") {
+					built = true
+				}
+			}
+		}
+		if !built {
+			stateful = false
+		}
+		if !stateful {
+			return nil, ""
+		}
+	default:
+		return nil, ""
+	}
+	// a tuple-typed element is handled through its .B field at the use site
+	if isCtxTuple(v.Type()) {
+		return nil, ""
+	}
+	return e, "queue element of " + types.ExprString(container)
+}
+
+// sameExpr: structurally the same variable / field / index expression.
+func sameExpr(info *types.Info, a, b ast.Expr) bool {
+	a, b = ast.Unparen(a), ast.Unparen(b)
+	switch x := a.(type) {
+	case *ast.Ident:
+		y, ok := b.(*ast.Ident)
+		return ok && objOf(info, x) != nil && objOf(info, x) == objOf(info, y)
+	case *ast.SelectorExpr:
+		y, ok := b.(*ast.SelectorExpr)
+		return ok && x.Sel.Name == y.Sel.Name && sameExpr(info, x.X, y.X)
+	case *ast.IndexExpr:
+		y, ok := b.(*ast.IndexExpr)
+		return ok && sameExpr(info, x.X, y.X) && types.ExprString(x.Index) == types.ExprString(y.Index)
+	}
+	return false
+}
+
+const controlsC09b = `
+func verifControlCtxRepaired[T any]() func(Observable[T]) Observable[T] {
+	return func(source Observable[T]) Observable[T] {
+		return NewUnsafeObservableWithContext(func(subscriberCtx context.Context, destination Observer[T]) Teardown {
+			var last lo.Tuple2[context.Context, T]
+			hasValue := false
+			sub := source.SubscribeWithContext(subscriberCtx, NewObserverWithContext(
+				func(ctx context.Context, value T) { last = lo.T2(ctx, value); hasValue = true },
+				destination.ErrorWithContext,
+				func(ctx context.Context) {
+					if hasValue {
+						destination.NextWithContext(ctx, last.B)
+					}
+					destination.CompleteWithContext(ctx)
+				}))
+			return sub.Unsubscribe
+		})
+	}
+}
+`
+
+// inUnsetBranch: the call lies on the branch of `if F` / `if !F` on which the companion flag F
+// of the tuple variable root still has its "nothing stored" value. F is a boolean variable that
+// is assigned a constant in every block where root is assigned; that constant is the "stored" value.
+func inUnsetBranch(m *model.Model, p *packages.Package, call ast.Node, root ast.Expr) bool {
+	info := p.TypesInfo
+	id, ok := ast.Unparen(root).(*ast.Ident)
+	if !ok {
+		return false
+	}
+	v := objOf(info, id)
+	stored := map[types.Object]bool{} // flag -> value it has once something is stored
+	for _, d := range m.Defs[v] {
+		blk := enclosingBlock(m, p, d.Node)
+		if blk == nil {
+			continue
+		}
+		for _, st := range blk.List {
+			as, ok := st.(*ast.AssignStmt)
+			if !ok || len(as.Lhs) != 1 || len(as.Rhs) != 1 {
+				continue
+			}
+			fid, ok := as.Lhs[0].(*ast.Ident)
+			if !ok {
+				continue
+			}
+			tv, ok := info.Types[as.Rhs[0]]
+			if !ok || tv.Value == nil {
+				continue
+			}
+			if s := tv.Value.String(); s == "true" || s == "false" {
+				stored[objOf(info, fid)] = s == "true"
+			}
+		}
+	}
+	if len(stored) == 0 {
+		return false
+	}
+	for c := call; c != nil; c = m.Parent(p, c) {
+		ifs, ok := m.Parent(p, c).(*ast.IfStmt)
+		if !ok {
+			continue
+		}
+		cond := ast.Unparen(ifs.Cond)
+		neg := false
+		if u, ok := cond.(*ast.UnaryExpr); ok && u.Op.String() == "!" {
+			neg = true
+			cond = ast.Unparen(u.X)
+		}
+		fid, ok := cond.(*ast.Ident)
+		if !ok {
+			continue
+		}
+		sv, has := stored[objOf(info, fid)]
+		if !has {
+			continue
+		}
+		// value of the flag on this branch
+		var flagVal bool
+		switch c {
+		case ast.Node(ifs.Body):
+			flagVal = !neg
+		case ifs.Else:
+			flagVal = neg
+		default:
+			continue
+		}
+		if flagVal != sv {
+			return true
+		}
+	}
+	return false
 }
